@@ -757,6 +757,9 @@ _CORES = {
 #  - the moving origin and axes of an orbit-attached or body-centred frame are whatever `propagate(date)` of the reference
 #    orbit / of the body's propagator returns: the offset providers are a fourth core of the frame properties C02 and C20.
 _CORES["time"][2].append("C15")
+DEPS.setdefault("C15", []).extend(((f"beyond/propagators/{m}.py", ["*.copy", "*.__init__"]), "the per-item copy of `StateVector.copy` calls the propagator's `copy`: it must hand back an equivalent, independent propagator (wave q: `return self`)")
+                                  for m in ("base", "kepler", "j2", "sgp4", "cw", "none", "soi", "keplernum"))
+DEPS.setdefault("C19", []).append((("beyond/env/solarsystem.py", ["*"]), "the beta angle and the true local time of the node read the Sun (or Moon) position from these propagators (wave q: one result cache shared by both bodies)"))
 _OFFSET_CORE = list(_PROPAGATORS) + [("beyond/env/solarsystem.py", ["*"]), ("beyond/env/jpl.py", ["JplPropagator.*", "Bsp.*", "get_orbit", "get_frame", "create_frames"]),
                                       ("beyond/propagators/base.py", ["*"])]
 _CORES["offset"] = (_OFFSET_CORE, "offset core: the moving origin (and local axes) of an orbit-attached or body-centred frame is what `propagate(date)` of its reference orbit / body propagator returns; `Center._to_parent` and `LocalOrbitalOrientation._to_parent` call it on every conversion",
